@@ -246,6 +246,132 @@ pub fn dispatch(t: &[&str]) -> Option<Out> {
         // sm2_kex <dA> <dB> <idA> <idB> <klen> <rA> <rB> <tamper>
         //   tamper: comma list of ra|rb|sb|sa (flip one bit of that message in transit) or "-"
         "sm2_kex" => return Some(kex(t)),
+        // sign then verify with the library itself: sm2_sv <d> <id> <msg> <cands>
+        "sm2_sv" => {
+            let sk = match Sm2PrivateKey::new(&unhex(t[1])) { Ok(k) => k, Err(e) => return Some(Out::Err(errname(e))) };
+            push_cands(t[4]);
+            let r = sk.sign(leak(t[2]), &unhex(t[3]));
+            vh::clear();
+            match r {
+                Err(e) => Out::Err(errname(e)),
+                Ok(sig) => res(sk.to_public_key().verify(leak(t[2]), &unhex(t[3]), &sig), |_| "verified".to_string()),
+            }
+        }
+        // encrypt then decrypt: sm2_ed <d> <msg> <compressed> <order> <cands>
+        "sm2_ed" => {
+            let sk = match Sm2PrivateKey::new(&unhex(t[1])) { Ok(k) => k, Err(e) => return Some(Out::Err(errname(e))) };
+            push_cands(t[5]);
+            let r = sk.to_public_key().encrypt(&unhex(t[2]), t[3] == "1", model(t[4]));
+            vh::clear();
+            match r {
+                Err(e) => Out::Err(errname(e)),
+                Ok(ct) => res(sk.decrypt(&ct, t[3] == "1", model(t[4])), |m| hx(&m)),
+            }
+        }
+        // ASN.1 round trip: sm2_ed_asn1 <d> <msg> <cands>
+        "sm2_ed_asn1" => {
+            let sk = match Sm2PrivateKey::new(&unhex(t[1])) { Ok(k) => k, Err(e) => return Some(Out::Err(errname(e))) };
+            push_cands(t[3]);
+            let r = sk.to_public_key().encrypt_asn1(&unhex(t[2]), false, Sm2Model::C1C3C2);
+            vh::clear();
+            match r {
+                Err(e) => Out::Err(errname(e)),
+                Ok(ct) => res(sk.decrypt_asn1(&ct, false, Sm2Model::C1C3C2), |m| hx(&m)),
+            }
+        }
+        // ---- documents (pkcs8 / spki / sec1 crates)
+        "sm2_spki_enc" => {
+            use pkcs8::EncodePublicKey;
+            let pk = match Sm2PublicKey::new(&unhex(t[1])) { Ok(p) => p, Err(e) => return Some(Out::Err(errname(e))) };
+            match pk.to_public_key_der() { Ok(d) => Out::Ok(hx(d.as_bytes())), Err(_) => Out::Err("Spki".into()) }
+        }
+        "sm2_spki_dec" => {
+            use pkcs8::DecodePublicKey;
+            match Sm2PublicKey::from_public_key_der(&unhex(t[1])) { Ok(pk) => Out::Ok(hx(&pk.to_bytes(false))), Err(_) => Out::Err("Spki".into()) }
+        }
+        "sm2_pkcs8_enc" => {
+            use pkcs8::EncodePrivateKey;
+            let sk = match Sm2PrivateKey::new(&unhex(t[1])) { Ok(k) => k, Err(e) => return Some(Out::Err(errname(e))) };
+            match sk.to_pkcs8_der() { Ok(d) => Out::Ok(hx(d.as_bytes())), Err(_) => Out::Err("Pkcs8".into()) }
+        }
+        "sm2_pkcs8_dec" => {
+            use pkcs8::DecodePrivateKey;
+            match Sm2PrivateKey::from_pkcs8_der(&unhex(t[1])) {
+                Ok(sk) => Out::Ok(format!("{} {}", hx(&sk.to_bytes_be()), hx(&sk.public_key.to_bytes(false)))),
+                Err(_) => Out::Err("Pkcs8".into()),
+            }
+        }
+        // PEM round trips inside the library: encode then decode
+        "sm2_spki_pem_rt" => {
+            use pkcs8::{DecodePublicKey, EncodePublicKey, LineEnding};
+            let pk = match Sm2PublicKey::new(&unhex(t[1])) { Ok(p) => p, Err(e) => return Some(Out::Err(errname(e))) };
+            let le = if t[2] == "crlf" { LineEnding::CRLF } else { LineEnding::LF };
+            let pem = match pk.to_public_key_pem(le) { Ok(s) => s, Err(_) => return Some(Out::Err("Spki".into())) };
+            match Sm2PublicKey::from_public_key_pem(&pem) { Ok(pk) => Out::Ok(hx(&pk.to_bytes(false))), Err(_) => Out::Err("Spki".into()) }
+        }
+        "sm2_pkcs8_pem_rt" => {
+            use pkcs8::{DecodePrivateKey, EncodePrivateKey, LineEnding};
+            let sk = match Sm2PrivateKey::new(&unhex(t[1])) { Ok(k) => k, Err(e) => return Some(Out::Err(errname(e))) };
+            let le = if t[2] == "crlf" { LineEnding::CRLF } else { LineEnding::LF };
+            let pem = match sk.to_pkcs8_pem(le) { Ok(s) => s, Err(_) => return Some(Out::Err("Pkcs8".into())) };
+            match Sm2PrivateKey::from_pkcs8_pem(&pem) {
+                Ok(sk) => Out::Ok(format!("{} {}", hx(&sk.to_bytes_be()), hx(&sk.public_key.to_bytes(false)))),
+                Err(_) => Out::Err("Pkcs8".into()),
+            }
+        }
+        // sm2_tamper <d> <msg> <comp> <order> <k> <kind> <arg> : encrypt with nonce k, alter the ciphertext, decrypt
+        "sm2_tamper" => {
+            let sk = match Sm2PrivateKey::new(&unhex(t[1])) { Ok(k) => k, Err(e) => return Some(Out::Err(errname(e))) };
+            push_cands(t[5]);
+            let r = sk.to_public_key().encrypt(&unhex(t[2]), t[3] == "1", model(t[4]));
+            vh::clear();
+            let mut ct = match r { Ok(c) => c, Err(e) => return Some(Out::Err(format!("enc:{}", errname(e)))) };
+            let c1len = if t[3] == "1" { 33 } else { 65 };
+            match t[6] {
+                "none" => {}
+                "flip" => { let b: usize = t[7].parse().unwrap(); ct[b / 8] ^= 0x80 >> (b % 8); }
+                "trunc" => { let l: usize = t[7].parse().unwrap(); ct.truncate(l); }
+                "prefix" => { ct[0] = t[7].parse::<u16>().unwrap() as u8; }
+                "c1" => { let mut n = unhex(t[7]); n.extend_from_slice(&ct[c1len..]); ct = n; }
+                _ => panic!("bad tamper kind"),
+            }
+            res(sk.decrypt(&ct, t[3] == "1", model(t[4])), |m| hx(&m))
+        }
+        // sm2_rngstats <n> : un-hooked randomness; scalars observed through the recorder at every call site
+        "sm2_rngstats" => {
+            let n: usize = t[1].parse().unwrap();
+            vh::clear();
+            let (pk0, sk0) = gm_sm2::key::gen_keypair().ok().unwrap();
+            let _ = vh::take_log();
+            let mut all: Vec<U256> = vec![];
+            for i in 0..n {
+                match i % 4 {
+                    0 => { let _ = gm_sm2::key::gen_keypair(); }
+                    1 => { let _ = sk0.sign(None, &[i as u8, (i >> 8) as u8]); }
+                    2 => { let _ = pk0.encrypt(&[1, 2, 3, i as u8], false, Sm2Model::C1C3C2); }
+                    _ => {
+                        let mut a = Exchange::new(16, None, &pk0, &sk0, None, &pk0).ok().unwrap();
+                        let _ = a.exchange_1();
+                    }
+                }
+                all.extend(vh::take_log());
+            }
+            let nn = fn64::SM2_N;
+            let in_range = all.iter().all(|v| gm_sm2::u256::u256_cmp(v, &nn) < 0 && *v != [0, 0, 0, 0]);
+            let mut sorted = all.clone();
+            sorted.sort();
+            sorted.dedup();
+            let distinct = sorted.len() == all.len() && all.len() >= n;
+            let m = all.len() as f64;
+            let mut bits_ok = true;
+            for bit in 0..255 {
+                let ones = all.iter().filter(|v| (v[bit / 64] >> (bit % 64)) & 1 == 1).count() as f64;
+                if (ones - m / 2.0).abs() > 8.0 * (m.sqrt() / 2.0) {
+                    bits_ok = false;
+                }
+            }
+            Out::Ok(format!("in-range={} distinct={} bits-ok={}", in_range as u8, distinct as u8, bits_ok as u8))
+        }
         // keygen with candidates: sm2_keygen <cands>
         "sm2_keygen" => {
             push_cands(t[1]);
